@@ -444,4 +444,8 @@ R.add('L6.4', l64, lambda tier: [dict(maxfrag=3 if tier == 'quick' else 5)], rep
       desc='FragmentSender.callback(False): the re-queued fragment is byte-identical to the original fragment message',
       expect=['re-sent fragment == original fragment message (header included)'])
 
+for _lid in ['L6.1', 'L6.3', 'L6.5', 'L6.5b']:
+    if _lid in R.lemmas:
+        R.lemmas[_lid].api = True
+
 get_harness = R.get_harness
